@@ -9,13 +9,16 @@ import (
 	"context"
 	"errors"
 	"fmt"
+	"net/http"
 	"net/http/httptest"
 	"regexp"
 	"strings"
 
 	"github.com/getkin/kin-openapi/openapi3"
 	"github.com/getkin/kin-openapi/openapi3filter"
+	"github.com/getkin/kin-openapi/routers"
 	"github.com/getkin/kin-openapi/routers/gorillamux"
+	"github.com/getkin/kin-openapi/routers/legacy"
 )
 
 func c07Loaded(meta *Meta) {
@@ -142,6 +145,77 @@ func c07LoadedExtras(meta *Meta) {
 					viol("loaded-document:panic", desc, fmt.Sprint(p))
 				} else if (verr == nil) != want {
 					viol("loaded-document:verdict", desc, fmt.Sprintf("target %s: got error %v", target, verr))
+				}
+			}
+		}
+	}
+	// a batch: the routes of several requests to one path are found first, each request is validated afterwards
+	// against the route found for it (its own method's security requirement, parameters and body)
+	for _, rk := range []string{"gorillamux", "legacy"} {
+		text := `{"openapi":"3.0.3","info":{"title":"t","version":"1"},"paths":{"/items":{` +
+			`"get":{"responses":{"200":{"description":"ok"}}},` +
+			`"delete":{"security":[{"key":[]}],"responses":{"200":{"description":"ok"}}},` +
+			`"post":{"requestBody":{"required":true,"content":{"application/json":{"schema":{"type":"object","required":["n"],"properties":{"n":{"type":"integer"}}}}}},"responses":{"200":{"description":"ok"}}},` +
+			`"put":{"parameters":[{"name":"v","in":"query","required":true,"schema":{"type":"integer"}}],"responses":{"200":{"description":"ok"}}}}},` +
+			`"components":{"securitySchemes":{"key":{"type":"apiKey","in":"header","name":"X-Auth"}}}}`
+		doc, err := openapi3.NewLoader().LoadFromData([]byte(text))
+		if err != nil || doc.Validate(context.Background()) != nil {
+			continue
+		}
+		var find func(*http.Request) (*routers.Route, map[string]string, error)
+		if rk == "gorillamux" {
+			r, err := gorillamux.NewRouter(doc)
+			if err != nil {
+				continue
+			}
+			find = r.FindRoute
+		} else {
+			r, err := legacy.NewRouter(doc)
+			if err != nil {
+				continue
+			}
+			find = r.FindRoute
+		}
+		type one struct {
+			method, target, body string
+			want                 bool
+		}
+		all := []one{{"GET", "/items", "", true}, {"DELETE", "/items", "", false}, {"POST", "/items", "", false}, {"POST", "/items", `{"n":1}`, true},
+			{"PUT", "/items", "", false}, {"PUT", "/items?v=3", "", true}}
+		for rot := 0; rot < len(all); rot++ {
+			batch := append(append([]one{}, all[rot:]...), all[:rot]...)
+			type found struct {
+				req   *http.Request
+				route *routers.Route
+				pp    map[string]string
+			}
+			var fs []found
+			for _, b := range batch {
+				req := httptest.NewRequest(b.method, b.target, strings.NewReader(b.body))
+				if b.body != "" {
+					req.Header.Set("Content-Type", "application/json")
+				}
+				route, pp, err := find(req)
+				if err != nil {
+					viol("batch:route-not-found", map[string]any{"router": rk, "method": b.method, "target": b.target}, err.Error())
+					continue
+				}
+				fs = append(fs, found{req, route, pp})
+			}
+			if len(fs) != len(batch) {
+				continue
+			}
+			for i, b := range batch {
+				meta.Histogram["batch: routes found first, validated afterwards"]++
+				opts := &openapi3filter.Options{AuthenticationFunc: func(context.Context, *openapi3filter.AuthenticationInput) error { return errors.New("denied") }}
+				var verr error
+				desc := map[string]any{"router": rk, "rotation": rot, "position": i, "method": b.method, "target": b.target, "body": b.body}
+				if p := catchPanic(func() {
+					verr = openapi3filter.ValidateRequest(context.Background(), &openapi3filter.RequestValidationInput{Request: fs[i].req, PathParams: fs[i].pp, Route: fs[i].route, Options: opts})
+				}); p != nil {
+					viol("batch:panic", desc, fmt.Sprint(p))
+				} else if (verr == nil) != b.want {
+					viol("batch:request-judged-by-another-requests-operation", desc, fmt.Sprintf("route says %s; expected accepted=%v, got error %v", fs[i].route.Method, b.want, verr))
 				}
 			}
 		}
